@@ -3,7 +3,7 @@
 # patch in /verif/mutants) is applied to a scratch worktree and the check of its property must exit 1
 # with a replay that reproduces; patches named neg-* must exit 0.
 pat="${1:-}"
-list=$(ls -d /verif/seeded/*${pat}*/ 2>/dev/null)
+list=$(ls -d /verif/seeded/*${pat}*/ 2>/dev/null | grep -v notjudged)
 [ -n "${MUTANTS:-}" ] && list="$list $(ls /verif/mutants/*${pat}*.diff 2>/dev/null)"
 for s in $list; do
   if [ -d "$s" ]; then name=$(basename $s); patch=$s/patch.diff; id=$(jq -r .property $s/meta.json | grep -o '^C[0-9][0-9]'); [ -z "$id" ] && id="C13 C15 C16 C17 C18 C19"
